@@ -37,6 +37,10 @@ pub struct Program {
     pub ops: Vec<Op>,
     pub nodes: usize,
     /// node the arbiter client connects to / node the writers use (cluster scenario)
+    /// after registering, the (administrator) arbiter session also selects and registers for a second database:
+    /// its resolutions still name the database of the conflict
+    #[serde(default)]
+    pub arbiter_elsewhere: bool,
     pub arbiter_node: usize,
     pub writer_node: usize,
 }
@@ -89,7 +93,7 @@ fn gen(rng: &mut Rng, cluster: bool) -> Program {
         ops.push(Op::Resolve { take_new: rng.chance(1, 2), newest: false });
     }
     let nodes = if cluster { rng.range(2, 3) as usize } else { 1 };
-    Program { ops, nodes, arbiter_node: rng.below(nodes as u64) as usize, writer_node: if cluster && rng.chance(1, 3) { rng.below(nodes as u64) as usize } else { 0 } }
+    Program { ops, nodes, arbiter_elsewhere: rng.chance(1, 3), arbiter_node: rng.below(nodes as u64) as usize, writer_node: if cluster && rng.chance(1, 3) { rng.below(nodes as u64) as usize } else { 0 } }
 }
 
 #[derive(Clone, Debug)]
@@ -161,6 +165,13 @@ fn execute(prog: Program) -> Outcome {
         out.setup = Err("setup_unstable".into());
         return out;
     }
+    if prog.arbiter_elsewhere {
+        padmin.exec("create-db b tokb arbiter");
+        if cluster && !w.settle(200, 5_000) {
+            out.setup = Err("setup_unstable".into());
+            return out;
+        }
+    }
     padmin.exec("use-db a tok");
     for k in KEYS.iter() {
         padmin.exec(&format!("set {} base", k));
@@ -213,7 +224,12 @@ fn execute(prog: Program) -> Outcome {
                 if arbiter.is_none() {
                     let mut a = Session::admin(&dbs[an]);
                     a.exec("use-db a tok");
-                    let r = a.exec("arbiter");
+                    let mut r = a.exec("arbiter");
+                    if prog.arbiter_elsewhere {
+                        let mut m2 = a.exec("use-db b tokb").msgs;
+                        m2.extend(a.exec("arbiter").msgs);
+                        r.msgs.extend(m2);
+                    }
                     inbox.clear();
                     for m in r.msgs.iter() {
                         if let Some(n) = parse_notice(m) {
@@ -245,7 +261,7 @@ fn execute(prog: Program) -> Outcome {
                 if cluster {
                     continue;
                 }
-                padmin.exec("snapshot false");
+                padmin.exec(if prog.arbiter_elsewhere { "snapshot false a|b" } else { "snapshot false" });
                 if !w.declutter_tick(0, 20_000) {
                     out.violations.push(Violation::new("snapshot-stuck", loc.clone(), format!("op #{}: background snapshot did not finish", i)));
                     return out;
